@@ -545,3 +545,59 @@ Section LearnTied.
     - apply set_all_training_ok. exact Hn.
   Qed.
 End LearnTied.
+
+(* ---- learn changes layers and optimizer state only: the connection maps, accumulations, input shape
+        and objective of the returned network are those of the network it was called on ---- *)
+Section LearnFrame.
+  Variable N : Num.
+
+  Definition same_arch (a b : network N) : Prop :=
+    n_input a = n_input b /\ n_loopbacks a = n_loopbacks b /\ n_loopacc a = n_loopacc b /\
+    n_connect a = n_connect b /\ n_skipacc a = n_skipacc b /\ n_objective a = n_objective b.
+
+  Lemma same_arch_refl a : same_arch a a.
+  Proof. repeat split. Qed.
+
+  Lemma same_arch_trans a b c : same_arch a b -> same_arch b c -> same_arch a c.
+  Proof.
+    intros (A1 & A2 & A3 & A4 & A5 & A6) (B1 & B2 & B3 & B4 & B5 & B6).
+    repeat split; congruence.
+  Qed.
+
+  Lemma set_layers_same_arch (n : network N) ls : same_arch (set_layers n ls) n.
+  Proof. repeat split. Qed.
+
+  Lemma set_all_training_same_arch t (n : network N) : same_arch (set_all_training t n) n.
+  Proof. repeat split. Qed.
+
+  Lemma update_same_arch (n n' : network N) stepnr wgs bgs :
+    update n stepnr wgs bgs = Ok n' -> same_arch n' n.
+  Proof.
+    unfold update. intros H.
+    match type of H with (do st <- ?F; _) = _ => destruct F as [st|]; [|discriminate] end.
+    cbn [bind] in H. injection H as <-. repeat split.
+  Qed.
+
+  Lemma validate_same_arch p (n n' : network N) xs ts tol r :
+    validate p n xs ts tol = Ok (n', r) -> same_arch n' n.
+  Proof.
+    unfold validate. destruct (validate_clear (n_layers n) false) as [ls training]. intros H.
+    match type of H with (do rs <- ?F; _) = _ => destruct F as [rs|]; [|discriminate] end.
+    cbn [bind] in H. injection H as <- _. destruct training; repeat split.
+  Qed.
+
+  Theorem learn_same_arch p (n n' : network N) xs ts val batch epochs h :
+    learn p n xs ts val batch epochs = Ok (n', h) -> same_arch n' n.
+  Proof.
+    intros H. unfold learn in H. destruct (negb (batch =? 0)); [|discriminate].
+    match type of H with (do r <- ?E; _) = _ => destruct E as [[s hh]|] eqn:El; [|discriminate] end.
+    cbn [bind fst snd] in H. injection H as <- _.
+    apply same_arch_trans with s; [apply set_all_training_same_arch|].
+    refine (@epochs_loop_inv N p _ _ _ _ _ _ _ (fun m => same_arch m n) _ _ _ _ _ _ _ _ _ _ _ _ El).
+    - intros e m g m' Hm Hs. unfold net_step in Hs.
+      exact (same_arch_trans (update_same_arch _ _ _ _ Hs) Hm).
+    - intros m m' r Hm Hv. destruct val as [[[vi vt] th]|]; [|discriminate].
+      exact (same_arch_trans (validate_same_arch _ _ _ _ _ Hv) Hm).
+    - apply set_all_training_same_arch.
+  Qed.
+End LearnFrame.
